@@ -78,6 +78,7 @@ def _dtype_canon(e):
     return ast.copy_location(ast.Attribute(value=ast.Name(id='np', ctx=ast.Load()), attr=name, ctx=ast.Load()), e)
 
 
+ASTROPY_LEADING = {'Angle': ('angle', 'unit'), 'Longitude': ('angle', 'unit'), 'Latitude': ('angle', 'unit'), 'Quantity': ('value', 'unit')}
 # leading positional parameters of numpy routines the package uses (numpy reference; unchanged since 1.x)
 NP_LEADING = {'zeros': ('shape',), 'ones': ('shape',), 'empty': ('shape',), 'full': ('shape', 'fill_value'), 'zeros_like': ('a',), 'ones_like': ('a',),
               'empty_like': ('prototype',), 'where': ('condition', 'x', 'y'), 'clip': ('a', 'a_min', 'a_max'), 'interp': ('x', 'xp', 'fp'),
@@ -148,6 +149,10 @@ class _E1(ast.NodeTransformer):
 
     def visit_BinOp(self, n):
         self.generic_visit(n)
+        # ~a | ~b  ->  ~(a & b) ;  ~a & ~b  ->  ~(a | b)      (bitwise identities, for integers and boolean arrays alike)
+        if isinstance(n.op, (ast.BitOr, ast.BitAnd)) and all(isinstance(x, ast.UnaryOp) and isinstance(x.op, ast.Invert) for x in (n.left, n.right)):
+            inner = ast.BinOp(left=n.left.operand, op=ast.BitAnd() if isinstance(n.op, ast.BitOr) else ast.BitOr(), right=n.right.operand)
+            return ast.copy_location(ast.UnaryOp(op=ast.Invert(), operand=ast.copy_location(inner, n)), n)
         # x * x is x ** 2 (numpy squares by multiplying; exact for integers and correctly rounded for floats either way)
         if isinstance(n.op, ast.Mult) and ast.dump(n.left) == ast.dump(n.right) and \
                 not any(isinstance(x, (ast.Call, ast.NamedExpr, ast.Await, ast.Yield, ast.YieldFrom)) for x in ast.walk(n.left)):
@@ -189,6 +194,10 @@ class _E1(ast.NodeTransformer):
 
     def visit_Attribute(self, n):
         self.generic_visit(n)
+        # q.to(unit).value  ->  q.to_value(unit)      (astropy.units.Quantity: documented as the same number)
+        if n.attr == 'value' and isinstance(n.ctx, ast.Load) and isinstance(n.value, ast.Call) and isinstance(n.value.func, ast.Attribute) \
+                and n.value.func.attr == 'to' and len(n.value.args) == 1 and not n.value.keywords:
+            return ast.copy_location(ast.Call(func=ast.Attribute(value=n.value.func.value, attr='to_value', ctx=ast.Load()), args=n.value.args, keywords=[]), n)
         if isinstance(n.value, ast.Name) and n.value.id in ('np', 'numpy') and n.attr in NP_ALIASES:
             n.attr = NP_ALIASES[n.attr]
         return n
@@ -358,6 +367,18 @@ class _E1(ast.NodeTransformer):
         # isinstance(x, (T,)) == isinstance(x, T)
         if isinstance(f, ast.Name) and f.id == 'isinstance' and len(n.args) == 2 and isinstance(n.args[1], ast.Tuple) and len(n.args[1].elts) == 1:
             n.args[1] = n.args[1].elts[0]
+        # astropy constructors with documented leading parameters: Angle(angle, unit), Quantity(value, unit)
+        cname = f.attr if isinstance(f, ast.Attribute) else f.id if isinstance(f, ast.Name) else None
+        if cname in ASTROPY_LEADING and n.keywords and all(k.arg is not None for k in n.keywords) and not any(isinstance(a, ast.Starred) for a in n.args) \
+                and all(_pure_expr(a) for a in n.args) and all(_pure_expr(k.value) for k in n.keywords):
+            sig = ASTROPY_LEADING[cname]
+            kw = {k.arg: k for k in n.keywords}
+            args = list(n.args)
+            while len(args) < len(sig) and sig[len(args)] in kw:
+                args.append(kw.pop(sig[len(args)]).value)
+            if len(args) != len(n.args):
+                n.args = args
+                n.keywords = [k for k in n.keywords if k.arg in kw]
         if isinstance(f, ast.Attribute) and isinstance(f.value, ast.Name) and f.value.id in ('np', 'numpy'):
             # np.zeros(shape=n, dtype=D) == np.zeros(n, dtype=D): leading parameters of well-known numpy routines given by keyword are
             # read positionally (documented, stable signatures; the arguments must be effect-free since their order changes)
@@ -371,6 +392,23 @@ class _E1(ast.NodeTransformer):
                 if len(args) != len(n.args):
                     n.args = args
                     n.keywords = [k for k in n.keywords if k.arg in kw]
+            # np.where(a < b, a, b) == np.minimum(a, b), np.where(a < b, b, a) == np.maximum(a, b) for INDEX arithmetic (integers: no NaN
+            # to tell them apart); recognised by an operand that is syntactically an index (nonzero(), len(), .size, arange, argsort ..)
+            if f.attr == 'where' and len(n.args) == 3 and not n.keywords and isinstance(n.args[0], ast.Compare) and len(n.args[0].ops) == 1 \
+                    and isinstance(n.args[0].ops[0], (ast.Lt, ast.LtE, ast.Gt, ast.GtE)):
+                cmp_ = n.args[0]
+                a_, b_ = cmp_.left, cmp_.comparators[0]
+                if isinstance(cmp_.ops[0], (ast.Gt, ast.GtE)):
+                    a_, b_ = b_, a_
+                da, db, dx, dy = ast.dump(a_), ast.dump(b_), ast.dump(n.args[1]), ast.dump(n.args[2])
+                txt = ast.unparse(n)
+                indexy = any(w in txt for w in ('.nonzero()', 'len(', '.size', '.shape', 'arange(', 'argsort(', 'searchsorted('))
+                if indexy and _pure_expr(a_) and _pure_expr(b_) and {da, db} == {dx, dy} and da != db:
+                    which = 'minimum' if dx == da else 'maximum'
+                    return ast.copy_location(ast.Call(func=ast.Attribute(value=f.value, attr=which, ctx=ast.Load()), args=[a_, b_], keywords=[]), n)
+            # np.result_type(x.dtype, 'float32') == np.result_type(x.dtype, np.float32)
+            if f.attr in ('result_type', 'promote_types'):
+                n.args = [_dtype_canon(a) if isinstance(a, ast.Constant) and isinstance(a.value, str) else a for a in n.args]
             # np.zeros(shape, 'i4') == np.zeros(shape, dtype='i4')
             if f.attr in ('zeros', 'ones', 'empty') and len(n.args) == 2 and not any(k.arg == 'dtype' for k in n.keywords):
                 n.keywords = [ast.keyword(arg='dtype', value=_dtype_canon(n.args[1]))] + n.keywords
@@ -729,6 +767,9 @@ class _E2(ast.NodeTransformer):
         self.generic_visit(n)
         if n.keywords and all(k.arg is not None for k in n.keywords):
             n.keywords = sorted(n.keywords, key=lambda k: k.arg)
+        if isinstance(n.func, ast.Attribute) and n.func.attr in ('minimum', 'maximum', 'logical_and', 'logical_or') and isinstance(n.func.value, ast.Name) \
+                and n.func.value.id in ('np', 'numpy') and len(n.args) == 2 and not n.keywords and all(_pure_expr(a) for a in n.args):
+            n.args = sorted(n.args, key=ast.dump)
         return n
 
 
@@ -970,6 +1011,140 @@ def _coalesce_copy(fn):
                 total[b] = total.get(b, 0) + total.get(a, 0) - 2
                 total[a] = 0
                 changed = True
+    return changed
+
+
+def _simple_test(t):
+    """A comparison of names / attributes with literals (or of two names), possibly negated or combined: cheap, effect-free, cannot raise."""
+    if isinstance(t, ast.BoolOp):
+        return all(_simple_test(v) for v in t.values)
+    if isinstance(t, ast.UnaryOp) and isinstance(t.op, ast.Not):
+        return _simple_test(t.operand)
+    if isinstance(t, ast.Compare) and len(t.ops) == 1 and isinstance(t.ops[0], (ast.Eq, ast.NotEq, ast.Is, ast.IsNot, ast.In, ast.NotIn)):
+        sides = [t.left, t.comparators[0]]
+        return all(isinstance(x, (ast.Name, ast.Constant)) or (isinstance(x, (ast.Tuple, ast.List, ast.Set)) and all(isinstance(e, ast.Constant) for e in x.elts))
+                   for x in sides)
+    return isinstance(t, ast.Name)
+
+
+def _hoist_terminal_else(fn):
+    """if a: A elif b: B else: raise E        ->   if not a and not b: raise E ; if a: A else: B
+    (also when the final else is `if g: raise E` followed by more).  The tests are comparisons of names with literals: evaluating them
+    up front changes nothing, and on the raising path nothing else ran before either.  A second, identical guard further down the same
+    block with no store to its names in between is dropped (it cannot fire)."""
+    changed = False
+    for owner in ast.walk(fn):
+        for fld in ('body', 'orelse', 'finalbody'):
+            body = getattr(owner, fld, None)
+            if not (isinstance(body, list) and body and isinstance(body[0], ast.stmt)) or isinstance(owner, ast.Lambda):
+                continue
+            i = 0
+            while i < len(body):
+                st = body[i]
+                i += 1
+                if not (isinstance(st, ast.If) and st.orelse):
+                    continue
+                tests, node = [], st
+                while True:
+                    tests.append(node.test)
+                    if len(node.orelse) == 1 and isinstance(node.orelse[0], ast.If) and node.orelse[0].orelse:
+                        node = node.orelse[0]
+                        continue
+                    break
+                last = node                       # its orelse is the final else block
+                E = last.orelse
+                g = None
+                if len(E) >= 1 and isinstance(E[0], ast.Raise):
+                    rest, rs = [], E[0]
+                    if len(E) != 1:
+                        continue
+                elif len(E) >= 1 and isinstance(E[0], ast.If) and not E[0].orelse and len(E[0].body) == 1 and isinstance(E[0].body[0], ast.Raise):
+                    g, rs, rest = E[0].test, E[0].body[0], E[1:]
+                    if not rest:
+                        continue
+                else:
+                    continue
+                if not all(_simple_test(t) for t in tests + ([g] if g is not None else [])):
+                    continue
+                names = {x.id for t in tests + ([g] if g is not None else []) for x in ast.walk(t) if isinstance(x, ast.Name)}
+                # the branches must not re-bind what the tests read (they run after the hoisted guard anyway; this keeps the chain's own
+                # later tests meaningful)
+                conj = [ast.UnaryOp(op=ast.Not(), operand=clone(t)) for t in tests] + ([clone(g)] if g is not None else [])
+                guard = ast.If(test=ast.BoolOp(op=ast.And(), values=conj) if len(conj) > 1 else conj[0], body=[rs], orelse=[])
+                ast.copy_location(guard, st)
+                ast.fix_missing_locations(guard)
+                if rest:
+                    last.orelse = rest
+                else:
+                    # else: raise  ->  the last tested branch becomes the else
+                    last.orelse = []
+                    if last is st:
+                        # single `if a: A else: raise`: guard + A
+                        body[i - 1:i] = [guard] + st.body
+                        changed = True
+                        continue
+                    # find parent of `last` in the chain and make last's body its else
+                    par = st
+                    while not (len(par.orelse) == 1 and par.orelse[0] is last):
+                        par = par.orelse[0]
+                    par.orelse = last.body
+                body.insert(i - 1, guard)
+                i += 1
+                changed = True
+            # duplicate guards
+            seen = {}
+            k = 0
+            while k < len(body):
+                st = body[k]
+                if isinstance(st, ast.If) and not st.orelse and len(st.body) == 1 and isinstance(st.body[0], ast.Raise) and _simple_test(st.test):
+                    key = ast.dump(st.test)
+                    if key in seen:
+                        names = {x.id for x in ast.walk(st.test) if isinstance(x, ast.Name)}
+                        between = body[seen[key] + 1:k]
+                        if not any(isinstance(x, ast.Name) and isinstance(x.ctx, (ast.Store, ast.Del)) and x.id in names for r in between for x in ast.walk(r)):
+                            del body[k]
+                            changed = True
+                            continue
+                    seen[key] = k
+                k += 1
+    return changed
+
+
+def _empty_filled(fn):
+    """X = np.empty((n, K), ..) followed by X[:, 0] = .., ..., X[:, K-1] = .. (every column, before anything else mentions X) reads
+    np.zeros((n, K), ..): no element keeps its uninitialised value."""
+    changed = False
+    for owner in ast.walk(fn):
+        for fld in ('body', 'orelse', 'finalbody'):
+            body = getattr(owner, fld, None)
+            if not (isinstance(body, list) and body and isinstance(body[0], ast.stmt)) or isinstance(owner, ast.Lambda):
+                continue
+            for i, st in enumerate(body):
+                if not (isinstance(st, ast.Assign) and len(st.targets) == 1 and isinstance(st.targets[0], ast.Name) and isinstance(st.value, ast.Call)
+                        and isinstance(st.value.func, ast.Attribute) and st.value.func.attr == 'empty' and isinstance(st.value.func.value, ast.Name)
+                        and st.value.func.value.id in ('np', 'numpy') and st.value.args and isinstance(st.value.args[0], ast.Tuple)
+                        and len(st.value.args[0].elts) == 2 and isinstance(st.value.args[0].elts[1], ast.Constant)
+                        and type(st.value.args[0].elts[1].value) is int and 1 <= st.value.args[0].elts[1].value <= 16):
+                    continue
+                x, K = st.targets[0].id, st.value.args[0].elts[1].value
+                cols = set()
+                for r in body[i + 1:]:
+                    mentions = [y for y in ast.walk(r) if isinstance(y, ast.Name) and y.id == x]
+                    if not mentions:
+                        continue
+                    t = r.targets[0] if isinstance(r, ast.Assign) and len(r.targets) == 1 else None
+                    if isinstance(t, ast.Subscript) and isinstance(t.value, ast.Name) and t.value.id == x and isinstance(t.slice, ast.Tuple) \
+                            and len(t.slice.elts) == 2 and isinstance(t.slice.elts[0], ast.Slice) and t.slice.elts[0].lower is None \
+                            and t.slice.elts[0].upper is None and t.slice.elts[0].step is None and isinstance(t.slice.elts[1], ast.Constant) \
+                            and type(t.slice.elts[1].value) is int and len(mentions) == 1:
+                        cols.add(t.slice.elts[1].value)
+                        if cols == set(range(K)):
+                            break
+                        continue
+                    break
+                if cols == set(range(K)):
+                    st.value.func.attr = 'zeros'
+                    changed = True
     return changed
 
 
@@ -1654,7 +1829,10 @@ PURE_BUILTINS = {'len', 'int', 'float', 'str', 'abs', 'min', 'max', 'sum', 'all'
 PURE_METHODS = {'upper', 'lower', 'strip', 'lstrip', 'rstrip', 'startswith', 'endswith', 'find', 'rfind', 'count', 'index', 'get', 'keys',
                 'values', 'items', 'nonzero', 'sum', 'min', 'max', 'mean', 'any', 'all', 'astype', 'ravel', 'reshape', 'transpose', 'tolist',
                 'argsort', 'argmin', 'argmax', 'cumsum', 'search', 'match', 'fullmatch', 'findall', 'split', 'join', 'format', 'replace',
-                'groups', 'group', 'isdigit', 'isspace', 'to', 'decode', 'encode', 'var', 'std', 'dot', 'flatten', 'squeeze', 'title'}
+                'groups', 'group', 'isdigit', 'isspace', 'to', 'to_value', 'decode', 'encode', 'var', 'std', 'dot', 'flatten', 'squeeze', 'title'}
+# package functions that are functions of their arguments: sdss_flagval / sdss_flagname / sdss_flagexist look names up in the maskbits
+# table (their only effect is to load that table once, which is idempotent)
+PURE_PACKAGE = {'sdss_flagval', 'sdss_flagname', 'sdss_flagexist'}
 IMPURE_NP = {'put', 'copyto', 'place', 'putmask', 'fill_diagonal', 'save', 'savetxt', 'load', 'loadtxt', 'seterr', 'random'}
 MUTATING = {'append', 'extend', 'insert', 'pop', 'remove', 'clear', 'update', 'sort', 'reverse', 'setdefault', 'popitem', 'add', 'discard',
             'fill', 'resize', 'put', 'itemset', 'byteswap', 'partition', 'write', 'close', 'seek'}
@@ -1669,7 +1847,7 @@ def _pure_expr(e):
         if isinstance(n, ast.Call):
             f = n.func
             if isinstance(f, ast.Name):
-                if f.id not in PURE_BUILTINS:
+                if f.id not in PURE_BUILTINS and f.id not in PURE_PACKAGE:
                     return False
             elif isinstance(f, ast.Attribute):
                 base = f.value
@@ -2045,6 +2223,24 @@ def _split_loop_vars(fn):
     return changed
 
 
+def _shape_only(e):
+    """Arithmetic over len(name), name.size, name.shape[k], name.ndim and integer literals: its value does not depend on the elements."""
+    if isinstance(e, ast.Constant):
+        return type(e.value) is int
+    if isinstance(e, ast.BinOp) and isinstance(e.op, (ast.Add, ast.Sub, ast.Mult, ast.FloorDiv)):
+        return _shape_only(e.left) and _shape_only(e.right)
+    if isinstance(e, ast.UnaryOp) and isinstance(e.op, ast.USub):
+        return _shape_only(e.operand)
+    if isinstance(e, ast.Call) and isinstance(e.func, ast.Name) and e.func.id == 'len' and len(e.args) == 1 and isinstance(e.args[0], ast.Name) and not e.keywords:
+        return True
+    if isinstance(e, ast.Attribute) and e.attr in ('size', 'ndim') and isinstance(e.value, ast.Name):
+        return True
+    if isinstance(e, ast.Subscript) and isinstance(e.value, ast.Attribute) and e.value.attr == 'shape' and isinstance(e.value.value, ast.Name) \
+            and isinstance(e.slice, ast.Constant):
+        return True
+    return False
+
+
 def _sink_definitions(fn):
     """`t = <pure expr over stable names>` is moved down to just before the first statement of its block that mentions t, when every
     statement it passes is effect-free (so nothing can observe, or pre-empt, the move).  Brings 'output allocated up front' and
@@ -2072,6 +2268,11 @@ def _sink_definitions(fn):
                         if mentions:
                             break
                         m2, s2 = _mutated_names(nxt)
+                        if _shape_only(st.value) and isinstance(nxt, (ast.Assign, ast.AugAssign)) and _pure_expr(nxt.value) and all(
+                                isinstance(t, ast.Subscript) and isinstance(t.value, ast.Name) and _pure_expr(t.slice)
+                                for t in (nxt.targets if isinstance(nxt, ast.Assign) else [nxt.target])) and not (set(s2) & free):
+                            j += 1                      # an element store changes no length / shape / size
+                            continue
                         simple_pure = isinstance(nxt, ast.Assign) and all(isinstance(t, ast.Name) for t in nxt.targets) and _pure_expr(nxt.value)
                         guarded_pure = isinstance(nxt, ast.If) and _pure_expr(nxt.test) and all(
                             isinstance(x, ast.Assign) and all(isinstance(t, ast.Name) for t in x.targets) and _pure_expr(x.value) for x in nxt.body + nxt.orelse)
@@ -2133,6 +2334,47 @@ def _sink_definitions(fn):
     return changed
 
 
+def _fresh_arrays(fn):
+    """Local names that only ever hold objects created in this function and not shared: every plain binding is an allocation, a copy,
+    an arithmetic / comparison result; no other name is bound from them by a plain reference, a view or a slice; they are not handed
+    to a call that could keep them (only subscripted, read in arithmetic, passed to numpy routines)."""
+    CREATE = {'zeros', 'ones', 'empty', 'full', 'zeros_like', 'ones_like', 'empty_like', 'array', 'arange', 'copy', 'astype', 'outer', 'tile',
+              'where', 'interp', 'sqrt', 'dot', 'concatenate', 'nonzero', 'argsort', 'cumsum', 'sum'}
+    params = {a.arg for a in fn.args.posonlyargs + fn.args.args + fn.args.kwonlyargs}
+    binds = {}
+    bad = set(params)
+    for n in ast.walk(fn):
+        if isinstance(n, ast.Assign):
+            for t in n.targets:
+                if isinstance(t, ast.Name):
+                    binds.setdefault(t.id, []).append(n.value)
+                else:
+                    for x in ast.walk(t):
+                        if isinstance(x, ast.Name) and isinstance(x.ctx, ast.Store):
+                            bad.add(x.id)
+        elif isinstance(n, (ast.For, ast.With, ast.ExceptHandler, ast.comprehension, ast.NamedExpr, ast.Global, ast.Nonlocal)):
+            for x in ast.walk(n.target if hasattr(n, 'target') else n):
+                if isinstance(x, ast.Name) and isinstance(x.ctx, ast.Store):
+                    bad.add(x.id)
+
+    def creates(v):
+        if isinstance(v, (ast.BinOp, ast.Compare)) or (isinstance(v, ast.UnaryOp) and isinstance(v.op, (ast.Invert, ast.USub))):
+            return True
+        if isinstance(v, ast.Call) and isinstance(v.func, ast.Attribute) and v.func.attr in CREATE:
+            return True
+        return False
+    out = {nm for nm, vs in binds.items() if nm not in bad and all(creates(v) for v in vs)}
+    # anything bound from a reference to / view of a candidate shares its storage
+    for nm, vs in binds.items():
+        for v in vs:
+            if not creates(v):
+                out -= {x.id for x in ast.walk(v) if isinstance(x, ast.Name)}
+    for n in ast.walk(fn):
+        if isinstance(n, (ast.Return, ast.Yield)) and n.value is not None:
+            pass                        # handing the array out at the end shares nothing during the function
+    return out
+
+
 def _forward_subst(fn, module_exprs=None):
     """A local bound exactly once to a pure expression over stable names reads as that expression; so does a module-level NAME bound
     once to a pure expression (a compiled pattern, a tuple of names, a number).  'Stable' = never re-bound, never assigned through,
@@ -2192,9 +2434,18 @@ def _forward_subst(fn, module_exprs=None):
     def uses(node, nm):
         return any(isinstance(x, ast.Name) and x.id == nm and isinstance(x.ctx, ast.Load) for x in ast.walk(node))
 
-    def effect_free(st):
+    fresh = _fresh_arrays(fn)
+
+    def effect_free(st, nm=None):
         if isinstance(st, ast.Pass):
             return True
+        if nm is not None and isinstance(st, (ast.Assign, ast.AugAssign)) and (st.value is None or _pure_expr(st.value)):
+            # an element store into an array that is the function's own fresh object (never a view of, nor viewed by, anything the
+            # temporary reads): the temporary's value cannot depend on it
+            tg = st.targets if isinstance(st, ast.Assign) else [st.target]
+            if all(isinstance(t, ast.Subscript) and isinstance(t.value, ast.Name) and t.value.id in fresh and _pure_expr(t.slice)
+                   and t.value.id != nm and t.value.id not in tfree.get(nm, ()) for t in tg):
+                return True
         if isinstance(st, (ast.Assign, ast.AnnAssign, ast.AugAssign)):
             tg = st.targets if isinstance(st, ast.Assign) else [st.target]
             flat = []
@@ -2242,7 +2493,7 @@ def _forward_subst(fn, module_exprs=None):
                 continue
             if uses(st, nm):
                 return 'used' if not isinstance(st, (ast.Try, ast.With)) or True else 'bad'
-            if not effect_free(st):
+            if not effect_free(st, nm):
                 later = stmts[stmts.index(st) + 1:]
                 return 'bad' if any(uses(x, nm) for x in later) else 'clean'
         return 'clean'
@@ -3048,6 +3299,8 @@ def normal_form(fn, callee_info=None, consts=None):
         _copy_prop(c)
         _coalesce_copy(c)
         _group_store(c)
+        _hoist_terminal_else(c)
+        _empty_filled(c)
         _fresh_zeros(c)
         _unalias(c)
         _max_idiom(c)
